@@ -1,6 +1,7 @@
-"""Child interpreter of the C06 hash-seed sweep: reads a layout case (JSON) on stdin,
-runs it on simulated ranks under this interpreter's PYTHONHASHSEED and prints the
-digest of the per-rank collective traces."""
+"""Child interpreter of the hash-seed sweeps.  Reads JSON on stdin:
+  a C06 layout case            -> digest of the per-rank collective traces (C06 kind "hashseed")
+  {"check": id, "case": case}  -> the case of any check run under this interpreter's PYTHONHASHSEED;
+                                  prints its status and per-rank traces (harness._trace_view)"""
 import json
 import os
 import sys
@@ -11,6 +12,12 @@ sys.path.insert(0, os.path.dirname(HERE))
 import seams          # noqa: E402
 seams.install()
 import harness        # noqa: E402,F401
-from checks import c06   # noqa: E402
 
-print(json.dumps(c06.trace_digest(json.loads(sys.stdin.read()))))
+req = json.loads(sys.stdin.read())
+if isinstance(req, dict) and 'check' in req and 'case' in req:
+    mod = harness.load_check(req['check'])
+    res = harness.run_case(mod, req['case'])
+    print(json.dumps(harness._trace_view(res)))
+else:
+    from checks import c06   # noqa: E402
+    print(json.dumps(c06.trace_digest(req)))
